@@ -45,6 +45,8 @@
 //	CE2 SE2            malformed PING (ReadFrame error)
 //	CE3 SE3            HEADERS with an undecodable HPACK block
 //	CL                 proxy shutdown: close(closing)
+//	STRESS:<n>:<w>     (whole script) n idle sessions each ended by proxy shutdown, on w workers in one process;
+//	                   a Go panic of the code under test is reported as err=PANIC
 //	cw+CC:... etc.     "a+b": both ops issued back to back without settling (race scenarios)
 //
 // OUT tokens:
@@ -980,6 +982,116 @@ func runScenario(in []string, T time.Duration) []string {
 	return []string{"ret=" + ret.String(), "fin=" + finTok, "eof=" + eof, "g=" + g, "err=" + ec}
 }
 
+// stress runs n idle sessions, each ended by proxy shutdown (close(closing) wakes both relay loops at the same
+// instant), on w workers against one TLS listener.  Anything that is only wrong when both directions end together
+// shows up here; a Go panic kills the child, which the parent reports as err=PANIC.
+func stress(n, w int, T time.Duration) []string {
+	cert, pool, err := selfSigned()
+	if err != nil {
+		return []string{"setup-failed"}
+	}
+	ln, err := tls.Listen("tcp", "127.0.0.1:0", &tls.Config{Certificates: []tls.Certificate{cert}, NextProtos: []string{"h2"}})
+	if err != nil {
+		return []string{"setup-failed"}
+	}
+	defer ln.Close()
+	var eofs int64
+	go func() {
+		for {
+			c, err := ln.Accept()
+			if err != nil {
+				return
+			}
+			go func(c net.Conn) {
+				defer c.Close()
+				c.SetDeadline(time.Now().Add(30 * time.Second))
+				pre := make([]byte, 24)
+				if _, err := io.ReadFull(c, pre); err != nil {
+					return
+				}
+				fr := http2.NewFramer(c, c)
+				fr.WriteSettings()
+				for {
+					if _, err := fr.ReadFrame(); err != nil {
+						atomic.AddInt64(&eofs, 1)
+						return
+					}
+				}
+			}(c)
+		}
+	}()
+	cfg := &h2.Config{RootCAs: pool, AllowedHostsFilter: func(string) bool { return true }}
+	u, _ := url.Parse("https://" + ln.Addr().String())
+	var returned, started int64
+	one := func() {
+		a, b := net.Pipe()
+		defer a.Close()
+		closing := make(chan bool)
+		ret := make(chan struct{})
+		go func() { defer close(ret); cfg.Proxy(closing, b, u) }()
+		a.SetDeadline(time.Now().Add(20 * time.Second))
+		if _, err := a.Write([]byte(http2.ClientPreface)); err != nil {
+			return
+		}
+		cf := http2.NewFramer(a, a)
+		got := make(chan struct{})
+		go func() {
+			first := true
+			for {
+				if _, err := cf.ReadFrame(); err != nil {
+					return
+				}
+				if first {
+					first = false
+					close(got) // the server's SETTINGS came through: both directions are up
+				}
+			}
+		}()
+		cf.WriteSettings()
+		select {
+		case <-got:
+		case <-time.After(10 * time.Second):
+			return
+		}
+		atomic.AddInt64(&started, 1)
+		close(closing)
+		select {
+		case <-ret:
+			atomic.AddInt64(&returned, 1)
+		case <-time.After(T):
+		}
+		b.Close()
+	}
+	var wg sync.WaitGroup
+	for i := 0; i < w; i++ {
+		wg.Add(1)
+		go func(k int) {
+			defer wg.Done()
+			for j := k; j < n; j += w {
+				one()
+			}
+		}(i)
+	}
+	wg.Wait()
+	g := "-"
+	deadline := time.Now().Add(T)
+	for {
+		g, _ = h2Goroutines()
+		if (g == "-" && atomic.LoadInt64(&eofs) >= atomic.LoadInt64(&started)) || time.Now().After(deadline) {
+			break
+		}
+		time.Sleep(10 * time.Millisecond)
+	}
+	fin, eof := "1", "1"
+	if atomic.LoadInt64(&returned) < int64(n) {
+		fin = "0"
+	}
+	if atomic.LoadInt64(&eofs) < atomic.LoadInt64(&started) {
+		eof = "0"
+	}
+	return []string{"ret=" + fin, "fin=" + fin, "eof=" + eof, "g=" + g, "err=nil"}
+}
+
 func childMain() {
 	mlog.SetLevel(mlog.Silent)
 	T := time.Duration(atoi(os.Getenv("C10_T_MS"))) * time.Millisecond
@@ -993,7 +1105,12 @@ func childMain() {
 		if !ok {
 			continue
 		}
-		cs.Out = runScenario(cs.In, T)
+		if len(cs.In) == 1 && strings.HasPrefix(cs.In[0], "STRESS:") {
+			f := strings.Split(cs.In[0], ":")
+			cs.Out = stress(atoi(f[1]), atoi(f[2]), T)
+		} else {
+			cs.Out = runScenario(cs.In, T)
+		}
 		fmt.Println(cs.Line())
 	}
 }
@@ -1017,9 +1134,9 @@ func runChild(cs hx.Case, T time.Duration) hx.Case {
 	cmd := exec.Command(exe)
 	cmd.Env = append(os.Environ(), "C10_CHILD=1", "C10_T_MS="+strconv.Itoa(int(T/time.Millisecond)))
 	cmd.Stdin = strings.NewReader("CASE " + cs.Name + " IN " + strings.Join(cs.In, " ") + "\n")
-	var out bytes.Buffer
+	var out, errb bytes.Buffer
 	cmd.Stdout = &out
-	cmd.Stderr = os.Stderr
+	cmd.Stderr = &errb
 	done := make(chan error, 1)
 	if err := cmd.Start(); err != nil {
 		cs.Out = []string{"child-failed"}
@@ -1037,6 +1154,15 @@ func runChild(cs hx.Case, T time.Duration) hx.Case {
 			return r
 		}
 	}
+	if strings.Contains(errb.String(), "panic:") || strings.Contains(errb.String(), "fatal error:") {
+		// the code under test brought the process down (children recover panics of the Proxy goroutine itself,
+		// but not those of goroutines it starts)
+		m := regexp.MustCompile(`(?m)^(panic|fatal error): (.*)$`).FindStringSubmatch(errb.String())
+		fmt.Fprintln(os.Stderr, "c10: child for", cs.Name, "died:", m[0])
+		cs.Out = []string{"ret=0", "fin=0", "eof=0", "g=-", "err=PANIC"}
+		return cs
+	}
+	os.Stderr.Write(errb.Bytes())
 	cs.Out = []string{"child-failed"}
 	return cs
 }
@@ -1077,7 +1203,7 @@ func main() {
 			defer wg.Done()
 			defer func() { <-sem }()
 			r := runChild(cases[i], T)
-			if hasEvent(cases[i].In) && !good(r.Out) {
+			if hasEvent(cases[i].In) && !good(r.Out) && !strings.HasPrefix(cases[i].In[0], "STRESS:") {
 				// environmental slowness must not become an alarm: confirm with twice the time
 				r2 := runChild(cases[i], 2*T)
 				if good(r2.Out) || len(r2.Out) > 1 {
